@@ -68,8 +68,8 @@ class struct(_composite_base):
             data += (self._get_padding(len(data), field_alignment(field.type)))
             data += field.encode_fcn(self, field.type, getattr(self, field.name, None), endianness)
 
-            if field.type._PARTIAL_ALIGNMENT:
-                data += self._get_padding(len(data), field.type._PARTIAL_ALIGNMENT)
+            if field.partial_alignment:
+                data += self._get_padding(len(data), field.partial_alignment)
 
         data += self._get_padding(len(data), self._ALIGNMENT)
 
@@ -88,8 +88,8 @@ class struct(_composite_base):
                 pos += field.decode_fcn(self, field.name, field.type, data, pos, endianness, len_hints)
             except ProphyError as e:
                 raise ProphyError("{}: {}".format(self.__class__.__name__, e))
-            if field.type._PARTIAL_ALIGNMENT:
-                pos += self._get_padding_size(pos, field.type._PARTIAL_ALIGNMENT)
+            if field.partial_alignment:
+                pos += self._get_padding_size(pos, field.partial_alignment)
 
         pos += self._get_padding_size(pos, self._ALIGNMENT)
 
